@@ -23,7 +23,7 @@ Modelling conventions (see also Np2.lean):
     `x ** 2` is `x * x`.
   * Boolean arrays (`>`, `<`, `==` against a scalar, `&`) are `Arr Bool`; in arithmetic they become 0/1 (`Arr.ofMask`).
   * Every rebinding of a name gets a fresh Lean name (`gradient`, `gradient_1`, …); in-place updates (`x op= e`,
-    `x[mask] = s`, `x[:, mask] = s`) are accepted only on a variable that owns a fresh array (no parameter, no view,
+    `x[mask] = s`, `x[:, mask] = s`, `np.fill_diagonal(x, s)`) are accepted only on a variable that owns a fresh array (no parameter, no view,
     not viewed by another name) and are checked to keep the shape (`Arr.inPlace`).
   * The returned arrays are wrapped in `Arr.checked flags`, `flags` = conjunction of the `ok` of every array bound on
     the executed path: a NumPy shape error ANYWHERE makes the result not `Eqv` to anything.  `flags` also holds
@@ -33,13 +33,22 @@ Modelling conventions (see also Np2.lean):
     `np.transpose(x, axes=[0, 2, 1])`, `+ - * /`, `np.sign`, `np.abs`, `/ scalar`, `.mean(0)` / `.sum(0)`,
     `np.squeeze(x, axis=1|2)`; a 2-D array meeting a 3-D one is broadcast as `(1, r, c)`.
 
-Accepted: straight-line code of assignments / augmented assignments / the two masked assignments above / `return`,
-`if self.ovo:` and `if return_grad:` (with optional `else`), doc-strings, `pass`; expressions: `+ - * /` (arrays with
+Accepted: straight-line code of assignments / augmented assignments / the masked assignments and `np.fill_diagonal` above /
+`return` (also an early one inside a folded branch), `if <test>:` (with optional `else` / `elif`) and `a if <test> else b`
+for tests made of `self.ovo`, `return_grad`, `not`, `and`, `or`, `True`, `False` (all folded), doc-strings, `pass`; calls
+`f(…)` of a top-level function `f` of the same file (bound exactly once in the module, undecorated, plain positional
+parameters) whose body is itself in this fragment and reads nothing but its parameters: the body is INLINED in a scope of its
+own (see `Unit.inline`); expressions: `+ - * /` (arrays with
 broadcasting, scalars), unary `-`/`+`, `@`, `np.dot`, `np.matmul`, `.dot`, `.T`, `.transpose()`, `np.transpose(x)`, `** 2`,
 `&`, comparisons `array > s`, `array < s`, `s < array`, `s > array`, `array == s`; `np.clip(x, lo, hi)` (also `a_min=`,
 `a_max=`), `np.log`, `np.sqrt`, `np.abs`/`np.absolute`, `np.sign`, `np.square`, `np.maximum(x, 0)`, `np.sum`/`np.mean`/
 `.sum`/`.mean` with `axis` in {None, 0, 1, -1, -2} and literal `keepdims`, `np.eye(n)`, `len(x)`, `x.shape[i]`, `np.diag`,
 `.reshape((1, -1))`, `.reshape((-1, 1))` (of 1-D arrays), `.squeeze()`, `.copy()`, and the 3-D operations listed above.
+Integer dtypes: `y_pred`, `affinity` (and the weight matrices of prox.py) are float arrays.  Every value carries `mi` = "its
+dtype / Python type MAY be an integer one" (integer literals, Boolean arrays in arithmetic, `np.full(shape, <int>)`,
+`np.where(m, <int>, <int>)`, `np.arange(k)`, and whatever NumPy's promotion derives from them; unknown Python scalars such
+as `alpha` count as possibly integer).  An in-place update of such an array is refused (NumPy would raise or truncate), and
+`x[mask] = s` / `np.fill_diagonal(x, s)` into one accepts integer literals only.
 Anything else raises TranslationFailure: the tie is then reported broken.
 """
 import ast
@@ -73,9 +82,40 @@ class Val:
     'tuple' (term = list of Val).  `fresh`: a newly allocated array nobody else refers to; `roots`: the variables whose
     memory the value may share (views)."""
 
-    def __init__(self, kind, term, nd=None, fresh=False, roots=(), lit=None):
+    def __init__(self, kind, term, nd=None, fresh=False, roots=(), lit=None, mi=None):
         self.kind, self.term, self.nd, self.fresh, self.roots = kind, term, nd, fresh, frozenset(roots)
         self.lit = lit                    # the value of a literal scalar
+        # "may be integer": the NumPy dtype of an array / the Python type of a scalar may be an integer one (only then do
+        # `x[mask] = 0.5` truncate and `x /= 2` raise).  None on an array = derive from the sub-expressions (see `tracked`).
+        self.mi = mi
+
+
+def tracked(fn):
+    """wraps `Unit.expr`: an array value whose `mi` was not decided by the rule that built it may have an integer dtype
+    as soon as one of its direct sub-expressions may (sound default for every dtype-preserving operation; the arithmetic
+    rules, the allocations and the literals decide for themselves)"""
+    def expr(self, e):
+        self.mi_stack.append([])
+        try:
+            v = fn(self, e)
+        finally:
+            kids = self.mi_stack.pop()
+        if v.kind == "arr" and v.mi is None:
+            v.mi = any(kids)
+        if self.mi_stack:
+            self.mi_stack[-1].append(bool(v.mi) if v.kind == "arr" else False)
+        return v
+    expr.__doc__ = fn.__doc__
+    return expr
+
+
+def may_be_int(v):
+    """of a Python scalar / shape entry / array"""
+    if v.kind == "nat":
+        return True
+    if v.kind == "scal":
+        return True if v.mi is None else v.mi       # parameters and attributes: unknown Python numbers
+    return bool(v.mi)
 
 
 class Returned(Exception):
@@ -83,9 +123,15 @@ class Returned(Exception):
 
 
 class Unit:
+    ovo = None                            # the folded configuration flags (None: the unit has none, see prox.py)
+    grad = None
+
     def __init__(self, rel, tree, numpy_names, short, cls, ovo, grad):
         self.rel, self.short, self.cls, self.ovo, self.grad = rel, short, cls, ovo, grad
         self.numpy = numpy_names
+        self.helpers = module_helpers(tree)
+        self.scopes = []                  # [name of the helper function being inlined, its returned Val]
+        self.mi_stack = []
         self.lean_name = unit_name(short, ovo, grad)
         self.where = f"{cls}.evaluate[ovo={ovo}, return_grad={grad}]"
         node = next((n for n in tree.body if isinstance(n, ast.ClassDef) and n.name == cls), None)
@@ -97,6 +143,7 @@ class Unit:
         self.fn = fns[0]
         if self.fn.decorator_list:
             self.fail("decorated method")
+        check_plain_function(self, self.fn)
         self.pynames = {n.id for n in ast.walk(self.fn) if isinstance(n, ast.Name)} | {a.arg for a in self.fn.args.args}
         self.used = set()                 # Lean names in use
         self.lets = []                    # (lean name, term)
@@ -162,6 +209,29 @@ class Unit:
     def zero(self, e):
         return isinstance(e, ast.Constant) and type(e.value) in (int, float) and e.value == 0
 
+    def fold_test(self, t):
+        """the value of a test made of the two folded configuration flags (`self.ovo`, `return_grad`), `not`, `and`, `or`
+        and the literals True / False; None for anything else.  Both flags are Booleans (`ovo` is validated as one, the unit
+        fixes `return_grad`), so truthiness is the value itself."""
+        if self.scopes:
+            return None                   # inside an inlined helper function neither `self` nor `return_grad` exist
+        if isinstance(t, ast.Attribute) and isinstance(t.value, ast.Name) and t.value.id == "self" \
+                and t.attr == FLAG_ATTR and "self" not in self.env and self.ovo is not None:
+            return self.ovo
+        if isinstance(t, ast.Name) and t.id == ARGS[2] and t.id not in self.env and self.grad is not None:
+            return self.grad
+        if isinstance(t, ast.Constant) and type(t.value) is bool:
+            return t.value
+        if isinstance(t, ast.UnaryOp) and isinstance(t.op, ast.Not):
+            v = self.fold_test(t.operand)
+            return None if v is None else not v
+        if isinstance(t, ast.BoolOp):
+            vals = [self.fold_test(x) for x in t.values]
+            if any(v is None for v in vals):
+                return None
+            return all(vals) if isinstance(t.op, ast.And) else any(vals)
+        return None
+
     # ------------------------------------------------------------ expressions
     def binop(self, op, l, r, node):
         if type(op) not in BINOPS:
@@ -171,9 +241,16 @@ class Unit:
             self.fail(f"arithmetic {sym} between two Boolean arrays", node)
         # Boolean arrays become 0/1 float arrays in arithmetic
         if l.kind == "mask":
-            l = Val("arr", f"(Arr.ofMask {l.term})", l.nd, True)
+            l = Val("arr", f"(Arr.ofMask {l.term})", l.nd, True, mi=True)
         if r.kind == "mask":
-            r = Val("arr", f"(Arr.ofMask {r.term})", r.nd, True)
+            r = Val("arr", f"(Arr.ofMask {r.term})", r.nd, True, mi=True)
+        # NumPy / Python type promotion: the result is an integer only if both operands are and the operator is not `/`
+        mi = fn != "div" and may_be_int(l) and may_be_int(r)
+        v = self.binop0(fn, sym, l, r, node)
+        v.mi = mi
+        return v
+
+    def binop0(self, fn, sym, l, r, node):
         if l.kind == "arr" and r.kind == "arr":
             if max(l.nd, r.nd) == 3:
                 a, b = self.lift3(l), self.lift3(r)
@@ -213,25 +290,27 @@ class Unit:
             return Val("arr", f"(Arr.matvec {a.term} {b.term})", 1, True)
         self.fail(f"{what} between a {a.nd}-d and a {b.nd}-d array", node)
 
+    @tracked
     def expr(self, e):
         if isinstance(e, ast.Constant):
             v = e.value
+            isint = type(v) is int
             if type(v) is float and v == 0.5:
-                return Val("scal", "half", lit=v)
+                return Val("scal", "half", lit=v, mi=False)
             if type(v) is float and v >= 0 and v == int(v) and v < 2 ** 53:
                 v = int(v)
             if type(v) is int and v >= 0:
-                return Val("scal", {0: "0", 1: "1"}.get(v, f"(nat {v})"), lit=v)
+                return Val("scal", {0: "0", 1: "1"}.get(v, f"(nat {v})"), lit=v, mi=isint)
             self.fail(f"unsupported literal {v!r}", e)
         if isinstance(e, ast.Name):
             if e.id in self.env:
                 v = self.env[e.id]
                 if v.kind in ("arr", "mask"):
-                    return Val(v.kind, v.term, v.nd, False, v.roots | {e.id})
+                    return Val(v.kind, v.term, v.nd, False, v.roots | {e.id}, mi=bool(v.mi))
                 return v
             self.fail(f"unknown name {e.id}", e)
         if isinstance(e, ast.Attribute):
-            if isinstance(e.value, ast.Name) and e.value.id == "self" and "self" not in self.env:
+            if isinstance(e.value, ast.Name) and e.value.id == "self" and "self" not in self.env and not self.scopes:
                 if e.attr in SCALAR_ATTRS:
                     return Val("scal", e.attr)
                 self.fail(f"read of self.{e.attr} inside an expression", e)
@@ -242,11 +321,12 @@ class Unit:
         if isinstance(e, ast.UnaryOp):
             a = self.expr(e.operand)
             if isinstance(e.op, ast.UAdd) and a.kind in ("arr", "scal"):
-                return Val(a.kind, a.term, a.nd, a.kind == "arr")
+                return Val(a.kind, a.term, a.nd, a.kind == "arr", mi=a.mi)
             if isinstance(e.op, ast.USub) and a.kind == "arr":
                 return Val("arr", f"({'Arr3' if a.nd == 3 else 'Arr'}.neg {a.term})", a.nd, True)
             if isinstance(e.op, ast.USub) and a.kind in ("scal", "nat"):
-                return Val("scal", f"(-{self.scal(a, e, 'unary -')})")
+                return Val("scal", f"(-{self.scal(a, e, 'unary -')})", mi=may_be_int(a),
+                           lit=(-a.lit if a.lit is not None else None))
             self.fail(f"unsupported unary operator {type(e.op).__name__} on {self.describe(a)}", e)
         if isinstance(e, ast.BinOp):
             if isinstance(e.op, ast.MatMult):
@@ -257,7 +337,7 @@ class Unit:
                 a = self.expr(e.left)
                 if a.kind in ("scal", "nat"):
                     t = self.scal(a, e, "**")
-                    return Val("scal", f"({t} * {t})")
+                    return Val("scal", f"({t} * {t})", mi=may_be_int(a))
                 self.arr(a, e, "** 2")
                 return Val("arr", f"(Arr.square {a.term})", a.nd, True)
             if isinstance(e.op, ast.BitAnd):
@@ -288,6 +368,11 @@ class Unit:
                     self.fail("unsupported use of .shape", e)
                 return Val("nat", self.dim(a, i, e))
             self.fail("unsupported subscript", e)
+        if isinstance(e, ast.IfExp):
+            cond = self.fold_test(e.test)
+            if cond is None:
+                self.fail("unsupported conditional expression (only tests made of `self.ovo`, `return_grad`, `not`, `and`, `or`)", e)
+            return self.expr(e.body if cond else e.orelse)      # Python evaluates the chosen branch only
         if isinstance(e, ast.Call):
             return self.call(e)
         self.fail(f"unsupported expression {type(e).__name__}", e)
@@ -385,10 +470,93 @@ class Unit:
             return Val("arr", f"(Arr3.squeeze2 {a.term})", 2, False, a.roots)
         self.fail(f"squeeze(axis={ax}) of a {a.nd}-d array", call)
 
+    # ------------------------------------------------------------ pure module-level helper functions, inlined
+    def inline(self, name, e):
+        """`name(args)` for a function `name` defined (once, undecorated) at the top level of the same file: its body is
+        translated in place, in a scope of its own holding nothing but its parameters, by the very same statement /
+        expression translator — so it is accepted only when it is itself in the straight-line fragment, reads nothing but
+        its parameters (no `self`, no global but the NumPy module and the other top-level functions) and writes nothing but
+        its own fresh arrays.  Parameters are bound with `let`s (Python evaluates the arguments before the call); they are
+        never `owned`, so an in-place update of an argument is refused.  A returned array that is not freshly allocated
+        may share memory with ANY array argument."""
+        fn = self.helpers[name]
+        if len(self.scopes) >= 8 or any(s[0] == name for s in self.scopes):
+            self.fail(f"{name}(…): recursive helper function", e)
+        caller = self.helpers[self.scopes[-1][0]] if self.scopes else self.fn
+        if any(isinstance(n, ast.Name) and n.id == name and isinstance(n.ctx, (ast.Store, ast.Del)) for n in ast.walk(caller)) \
+                or name in {x.arg for x in caller.args.args}:
+            self.fail(f"{name}(…): the calling function binds the name {name} itself", e)
+        a = fn.args
+        if fn.decorator_list or a.vararg or a.kwarg or a.kwonlyargs or a.posonlyargs or a.defaults:
+            self.fail(f"{name}(…): helper functions must be undecorated and take plain positional parameters without defaults", e)
+        params = [x.arg for x in a.args]
+        if any(isinstance(x, ast.Starred) for x in e.args) or any(k.arg is None for k in e.keywords) or len(e.args) > len(params):
+            self.fail(f"{name}(…): arguments do not match the signature", e)
+        given = dict(zip(params, e.args))
+        for k in e.keywords:
+            if k.arg not in params or k.arg in given:
+                self.fail(f"{name}(…): arguments do not match the signature", e)
+            given[k.arg] = k.value
+        if len(given) != len(params) or len(set(params)) != len(params):
+            self.fail(f"{name}(…): arguments do not match the signature", e)
+        check_plain_function(self, fn)
+        stores = {n.id for n in ast.walk(fn) if isinstance(n, ast.Name) and isinstance(n.ctx, (ast.Store, ast.Del))}
+        bad = (stores | set(params)) & (set(self.numpy) | {"len", "self"} | set(self.helpers))
+        if bad:
+            self.fail(f"{name}(…): the helper function rebinds {', '.join(sorted(bad))}", e)
+        vals = {p: self.expr(x) for p, x in given.items()}          # in the caller's scope, in call order
+        roots = set()
+        for v in vals.values():
+            if v.kind in ("arr", "mask", "iarr"):
+                roots |= set(v.roots)
+        self.pynames = self.pynames | {n.id for n in ast.walk(fn) if isinstance(n, ast.Name)} | set(params)
+        saved = (self.env, self.aliased, self.where)
+        self.env, self.aliased = {}, set()
+        self.where = f"{saved[2]} -> {name}"
+        self.scopes.append([name, None])
+        try:
+            for p in params:
+                v = vals[p]
+                if v.kind in ("arr", "mask"):
+                    v = Val(v.kind, v.term, v.nd, False, v.roots)
+                self.bind(p, v, e)
+                if p in self.env and self.env[p].kind in ("arr", "mask", "iarr"):
+                    self.aliased.add(p)                                # the caller's array: never updated in place
+                    self.env[p].fresh = False
+            try:
+                self.block(fn.body)
+            except Returned:
+                pass
+            res = self.scopes[-1][1]
+            if res is None:
+                self.fail("the helper function returns nothing on this path", e)
+        finally:
+            self.scopes.pop()
+            self.env, self.aliased, self.where = saved
+        if res.kind in ("arr", "mask", "iarr"):
+            mi = bool(res.mi) if res.kind == "arr" else None
+            if res.fresh and not res.roots:
+                return Val(res.kind, res.term, res.nd, True, mi=mi)
+            return Val(res.kind, res.term, res.nd, False, roots, mi=mi)
+        if res.kind == "tuple":
+            self.fail(f"{name}(…): helper function returning a tuple", e)
+        return res
+
+    def helper_stmt(self, st):
+        """`return` / loops inside an inlined helper function"""
+        if isinstance(st, ast.Return):
+            if st.value is None:
+                self.fail("return without value", st)
+            self.scopes[-1][1] = self.expr(st.value)
+            raise Returned()
+        self.fail(f"{type(st).__name__} inside a helper function", st)
+
     def call(self, e):
         f = e.func
         nokw = not e.keywords
         n = len(e.args)
+        if isinstance(f, ast.Name) and f.id in self.helpers and f.id not in self.env and f.id not in getattr(self, "done", {}):
+            return self.inline(f.id, e)
         if isinstance(f, ast.Name) and f.id == "len" and "len" not in self.env and n == 1 and nokw:
             a = self.expr(e.args[0])
             if a.kind not in ("arr", "mask") or a.nd == 0:
@@ -497,15 +665,26 @@ class Unit:
         self.aliased.discard(name)
         if v.roots or not v.fresh:
             self.aliased.add(name)
-        self.env[name] = Val(v.kind, lean, v.nd, v.fresh and not v.roots, v.roots)
+        self.env[name] = Val(v.kind, lean, v.nd, v.fresh and not v.roots, v.roots,
+                             mi=(bool(v.mi) if v.kind == "arr" else v.mi))
 
-    def owned(self, name, node, what):
+    def owned(self, name, node, what, int_ok=False):
         cur = self.env.get(name)
         if cur is None or cur.kind != "arr":
             self.fail(f"{what} of {name}, which is not a float array variable", node)
         if not cur.fresh or name in self.aliased:
             self.fail(f"{what} of {name}, which is (or may be) shared with another name, a parameter or a view", node)
+        if cur.mi and not int_ok:
+            self.fail(f"{what} of {name}, whose dtype may be an integer one (NumPy would truncate or raise)", node)
         return cur
+
+    def stored_scalar(self, cur, value, st, what):
+        """the scalar stored by `x[…] = value`: any Python scalar into a float array; into an array whose dtype may be an
+        integer one only an integer literal (a float would be truncated)"""
+        v = self.expr(value)
+        if cur.mi and not (v.kind == "scal" and v.lit is not None and v.mi):
+            self.fail(f"{what} of something else than an integer literal into an array whose dtype may be an integer one", st)
+        return self.scal(v, st, what)
 
     def block(self, body):
         for st in body:
@@ -516,6 +695,8 @@ class Unit:
             return
         if isinstance(st, ast.Pass):
             return
+        if self.scopes and isinstance(st, (ast.Return, ast.For, ast.While)):
+            return self.helper_stmt(st)
         if isinstance(st, ast.Assign):
             if len(st.targets) != 1:
                 self.fail("chained assignment", st)
@@ -524,25 +705,37 @@ class Unit:
                 self.bind(t.id, self.expr(st.value), st)
                 return
             if isinstance(t, ast.Subscript) and isinstance(t.value, ast.Name):
-                cur = self.owned(t.value.id, st, "masked assignment")
+                cur = self.owned(t.value.id, st, "masked assignment", int_ok=True)
                 if cur.nd == 3:
                     self.fail("masked assignment into a 3-d array", st)
-                s = self.scal(self.expr(st.value), st, "masked assignment")
+                s = self.stored_scalar(cur, st.value, st, "masked assignment")
                 sl = t.slice
                 if isinstance(sl, ast.Tuple) and len(sl.elts) == 2 and isinstance(sl.elts[0], ast.Slice) \
                         and sl.elts[0].lower is None and sl.elts[0].upper is None and sl.elts[0].step is None:
                     m = self.expr(sl.elts[1])
                     if m.kind != "mask" or m.nd != 1 or cur.nd != 2:
                         self.fail("x[:, m] = s needs a 2-d x and a 1-d Boolean m", st)
-                    self.bind(t.value.id, Val("arr", f"(Arr.setColsWhere {cur.term} {m.term} {s})", 2, True), st)
+                    self.bind(t.value.id, Val("arr", f"(Arr.setColsWhere {cur.term} {m.term} {s})", 2, True, mi=cur.mi), st)
                     return
                 if not isinstance(sl, (ast.Tuple, ast.Slice)):
                     m = self.expr(sl)
                     if m.kind != "mask" or m.nd != cur.nd:
                         self.fail("x[m] = s needs a Boolean m with as many dimensions as x", st)
-                    self.bind(t.value.id, Val("arr", f"(Arr.setWhere {cur.term} {m.term} {s})", cur.nd, True), st)
+                    self.bind(t.value.id, Val("arr", f"(Arr.setWhere {cur.term} {m.term} {s})", cur.nd, True, mi=cur.mi), st)
                     return
             self.fail("unsupported assignment target", st)
+        if isinstance(st, ast.Expr) and isinstance(st.value, ast.Call) and self.is_np(st.value.func, {"fill_diagonal"}):
+            # `np.fill_diagonal(x, s)`: an in-place update of a 2-d array the variable `x` owns (returns None)
+            c = st.value
+            if len(c.args) != 2 or c.keywords or not isinstance(c.args[0], ast.Name):
+                self.fail("np.fill_diagonal: only np.fill_diagonal(<variable>, scalar)", st)
+            name = c.args[0].id
+            cur = self.owned(name, st, "np.fill_diagonal", int_ok=True)
+            if cur.nd != 2:
+                self.fail("np.fill_diagonal of an array that is not 2-d", st)
+            s = self.stored_scalar(cur, c.args[1], st, "np.fill_diagonal")
+            self.bind(name, Val("arr", f"(Arr.fillDiagonal {cur.term} {s})", 2, True, mi=cur.mi), st)
+            return
         if isinstance(st, ast.AugAssign):
             if not isinstance(st.target, ast.Name):
                 self.fail("unsupported augmented assignment target", st)
@@ -557,14 +750,9 @@ class Unit:
             self.bind(name, Val("arr", f"(Arr.inPlace {cur.term} {v.term})", cur.nd, True), st)
             return
         if isinstance(st, ast.If):
-            t = st.test
-            if isinstance(t, ast.Attribute) and isinstance(t.value, ast.Name) and t.value.id == "self" \
-                    and t.attr == FLAG_ATTR and "self" not in self.env:
-                cond = self.ovo
-            elif isinstance(t, ast.Name) and t.id == ARGS[2] and t.id not in self.env:
-                cond = self.grad
-            else:
-                self.fail("unsupported branch (only `if self.ovo:` and `if return_grad:`)", st)
+            cond = self.fold_test(st.test)
+            if cond is None:
+                self.fail("unsupported branch (only tests made of `self.ovo`, `return_grad`, `not`, `and`, `or`)", st)
             self.block(st.body if cond else st.orelse)
             return
         if isinstance(st, ast.Return):
@@ -619,6 +807,66 @@ class Unit:
     def data(self):
         return {"class": self.cls, "method": "evaluate", "file": self.rel, "ovo": self.ovo, "return_grad": self.grad,
                 "lets": [[n, t] for n, t in self.lets], "result": [v.term for v in self.result]}
+
+
+def check_plain_function(unit, fn):
+    """a function whose meaning is that of its statements in order: no generator / coroutine, no scope declaration, no
+    nested function or class (they would be found anyway when reached; a `yield` in dead code changes what a call means)"""
+    if isinstance(fn, ast.AsyncFunctionDef):
+        unit.fail(f"{fn.name}: coroutine")
+    for node in ast.walk(fn):
+        if node is not fn and isinstance(node, (ast.Yield, ast.YieldFrom, ast.Await, ast.Global, ast.Nonlocal, ast.FunctionDef,
+                                                 ast.AsyncFunctionDef, ast.ClassDef, ast.Lambda)):
+            unit.fail(f"{fn.name}: {type(node).__name__} inside the function", node)
+
+
+def _walk_scope(stmts):
+    """the nodes of the given statements that belong to the same scope (bodies of nested functions / classes excluded;
+    their names, decorators and defaults belong to it)"""
+    todo = list(stmts)
+    while todo:
+        node = todo.pop()
+        yield node
+        if isinstance(node, (ast.FunctionDef, ast.AsyncFunctionDef, ast.ClassDef)):
+            todo += list(node.decorator_list)
+            if not isinstance(node, ast.ClassDef):
+                todo += list(node.args.defaults) + [d for d in node.args.kw_defaults if d is not None]
+            else:
+                todo += list(node.bases) + [k.value for k in node.keywords]
+        elif isinstance(node, ast.Lambda):
+            todo += list(node.args.defaults) + [d for d in node.args.kw_defaults if d is not None]
+        else:
+            todo += list(ast.iter_child_nodes(node))
+
+
+def module_helpers(tree):
+    """name -> FunctionDef of the top-level `def`s whose name is bound exactly ONCE in the module scope (whatever the
+    statement: def, class, assignment, import, loop / with / except target, walrus, del) and never declared `global`; none
+    at all when the module has a `from … import *`.  A call `name(…)` then means: run that body."""
+    counts, defs = {}, {}
+    for node in _walk_scope(tree.body):
+        names = []
+        if isinstance(node, (ast.FunctionDef, ast.AsyncFunctionDef, ast.ClassDef)):
+            names = [node.name]
+        elif isinstance(node, ast.Name) and isinstance(node.ctx, (ast.Store, ast.Del)):
+            names = [node.id]
+        elif isinstance(node, (ast.Import, ast.ImportFrom)):
+            names = [(a.asname or a.name).split(".")[0] for a in node.names]
+        elif isinstance(node, ast.ExceptHandler) and node.name:
+            names = [node.name]
+        elif isinstance(node, (ast.MatchAs, ast.MatchStar)) and node.name:
+            names = [node.name]
+        elif isinstance(node, ast.MatchMapping) and node.rest:
+            names = [node.rest]
+        for x in names:
+            counts[x] = counts.get(x, 0) + 1
+    if "*" in counts:
+        return {}
+    declared = {x for node in ast.walk(tree) if isinstance(node, ast.Global) for x in node.names}
+    for node in tree.body:
+        if isinstance(node, ast.FunctionDef) and counts.get(node.name) == 1 and node.name not in declared:
+            defs[node.name] = node
+    return defs
 
 
 def _numpy_names(rel, tree):
